@@ -29,7 +29,7 @@ import (
 //	on id  value.NewOnce()       oc id    Native().Do(body) — answers how often the body ran so far
 //
 // answer: `ok o1,o2,...` one outcome per executed op: ok | v<N> | ClosedPush | ClosedPop |
-// ClosedClose | Unlocked | err:<class> | panic | block. A call that has not returned 30 ms after its goroutine started
+// ClosedClose | Unlocked | err:<class> | panic | block. A call that has not returned 60 ms after its goroutine started (longer on a loaded machine)
 // answers `block` and ends the script (no model is consulted to decide that); a Go panic out of
 // the wrapper answers `panic` and ends the script; a Go fatal error kills the worker process (the
 // python side reruns the line alone and records `fatal`).
@@ -68,8 +68,9 @@ func errName(err value.Value) string {
 	return "err:" + cls.Name
 }
 
-// callTimed runs f in its own goroutine; "block" when it has not returned 30 ms after the
-// goroutine was seen running (a loaded machine may take long to schedule it).
+// callTimed runs f in its own goroutine; "block" when it has not returned 60 ms after the goroutine
+// was seen running. On a loaded machine (a canary goroutine takes more than 2 ms to get scheduled)
+// the call is given up to a further second before it is declared blocked.
 func callTimed(f func() string) string {
 	done := make(chan string, 1)
 	started := make(chan struct{})
@@ -89,7 +90,23 @@ func callTimed(f func() string) string {
 	select {
 	case s := <-done:
 		return s
-	case <-time.After(30 * time.Millisecond):
+	case <-time.After(60 * time.Millisecond):
+	}
+	t0 := time.Now()
+	canary := make(chan struct{})
+	go func() { close(canary) }()
+	<-canary
+	if time.Since(t0) > 2*time.Millisecond {
+		select {
+		case s := <-done:
+			return s
+		case <-time.After(time.Second):
+		}
+	}
+	select {
+	case s := <-done:
+		return s
+	default:
 		return "block"
 	}
 }
